@@ -46,9 +46,21 @@ func runSolver(ctx context.Context, sd solverDef, file string, timeoutS int) (st
 	cmd.Stderr = &out
 	_ = cmd.Run()
 	text := out.String()
-	first := strings.TrimSpace(strings.SplitN(text, "\n", 2)[0])
+	first := ""
+	for _, ln := range strings.Split(text, "\n") {
+		ln = strings.TrimSpace(ln)
+		// warnings (unusable pattern, unsupported option) precede the answer
+		if ln == "" || strings.HasPrefix(ln, "WARNING") || ln == "unsupported" {
+			continue
+		}
+		first = ln
+		break
+	}
 	switch first {
 	case "unsat", "sat", "unknown":
+		if k := strings.Index(text, first+"\n"); k > 0 {
+			text = text[k:]
+		}
 		return first, text
 	}
 	if strings.Contains(first, "timeout") || strings.Contains(text, "interrupted") {
